@@ -36,7 +36,9 @@ ASSUMPTIONS = ["the feature set is the grammar above (listed per production in p
                "two failing runs are considered equal whatever their messages"]
 # grammar 2 = grammar 1 + tool-level defaults, valueFrom reading another input, arrays of optional ints; runs without the
 # parameter (replay files recorded before it existed) use grammar 1, whose tape layout is unchanged
-TIERS = {"quick": {"runs": 160, "budget_s": 75, "chunk": 2, "params": {"grammar": 2}}, "thorough": {"runs": 20000, "budget_s": 900, "chunk": 8, "params": {"grammar": 2}}}
+TIERS = {"quick": {"runs": 160, "budget_s": 75, "chunk": 2, "params": {"grammar": 2}}, "thorough": {"runs": 20000, "budget_s": 900, "chunk": 2, "params": {"grammar": 2}}}
+# one run spawns up to a few hundred real processes (node, /bin/echo, /bin/cat): on a loaded machine a chunk may need minutes
+STALL_S = 900
 SIM_KW = {"max_steps": 3_000_000, "wall_cap": 120.0, "max_vtime": 1e7}
 
 
